@@ -214,24 +214,50 @@ pub fn c18_decode_loop_utf8_4() {
 // under Kani: symex of the UTF-16/UTF-8 fast paths explodes for 4 symbolic bytes, DESIGN.md).
 // ------------------------------------------------------------------------------------------------
 
+/// Abstract output buffer: length and capacity of the output string as numbers. A real `String`
+/// whose length is symbolic makes every growth step a symbolic-size realloc+copy; the termination
+/// argument only depends on `capacity - len`, so both the decoder stub and `String::reserve` work on
+/// this model. `reserve` is modelled by its CONTRACT with the least growth it allows
+/// (`capacity >= len + additional` afterwards, nothing more) - the adversarial case for termination.
+static mut MODEL_LEN: usize = 0;
+static mut MODEL_CAP: usize = 0;
+/// Total output a decoder can produce for the whole input (3 bytes per input byte + 4).
+static mut MODEL_BUDGET: usize = 0;
+static mut MODEL_WRITTEN: usize = 0;
+
+fn model_reserve(_s: &mut String, additional: usize) {
+    unsafe {
+        if MODEL_CAP - MODEL_LEN < additional {
+            MODEL_CAP = MODEL_LEN + additional;
+        }
+    }
+}
+
+fn model_push(_s: &mut String, c: char) {
+    let n = c.len_utf8();
+    unsafe {
+        if MODEL_CAP - MODEL_LEN < n {
+            MODEL_CAP = MODEL_LEN + n;
+        }
+        MODEL_LEN += n;
+    }
+}
+
 /// Contract stub for `Decoder::decode_to_string_without_replacement` (encoding_rs documentation):
 /// * reads `read <= src.len()` bytes, appends `written <= spare capacity` bytes to `dst`;
 /// * `InputEmpty` only with `read == src.len()`;
 /// * `OutputFull` without progress (`read == 0 && written == 0`) only if fewer than 4 bytes of spare
 ///   capacity are available (a UTF-8 encoded scalar value needs at most 4);
 /// * `Malformed(len, after)` with `1 <= len`, `len + after <= read` and `read >= 1`.
-fn decode_contract_stub(_this: &mut Decoder, src: &[u8], dst: &mut String, _last: bool) -> (DecoderResult, usize) {
-    let spare = dst.capacity() - dst.len();
+fn decode_contract_stub(_this: &mut Decoder, src: &[u8], _dst: &mut String, _last: bool) -> (DecoderResult, usize) {
+    let spare = unsafe { MODEL_CAP - MODEL_LEN };
     let read: usize = kani::any();
     kani::assume(read <= src.len());
     let written: usize = kani::any();
-    kani::assume(written <= spare && written <= 4);
-    let mut w = 0;
-    while w < 4 {
-        if w < written {
-            unsafe { dst.as_mut_vec().push(b'x') };
-        }
-        w += 1;
+    kani::assume(written <= spare && unsafe { MODEL_WRITTEN } + written <= unsafe { MODEL_BUDGET });
+    unsafe {
+        MODEL_LEN += written;
+        MODEL_WRITTEN += written;
     }
     let k: u8 = kani::any();
     kani::assume(k < 3);
@@ -254,7 +280,9 @@ fn decode_contract_stub(_this: &mut Decoder, src: &[u8], dst: &mut String, _last
 }
 
 /// For every input of up to N bytes, every trap and EVERY decoder behaviour allowed by the contract,
-/// decode_loop leaves its loop within 2N+3 iterations (unwinding assertion) and never panics
+/// decode_loop leaves its loop within 2(4N+4)+1 iterations (every iteration that is not followed by
+/// the end consumes input, produces output - at most 3N+4 bytes in total - or is a no-progress
+/// OutputFull, which the growth step must make impossible next time) and never panics
 /// (no index out of range when building the error context).
 fn decode_loop_contract<const N: usize>() {
     let bytes: [u8; N] = kani::any();
@@ -263,6 +291,12 @@ fn decode_loop_contract<const N: usize>() {
     let (trap, k) = sym_trap();
     if sym::playback() {
         eprintln!("VERIF-INPUT bytes={:?} trap_choice={}", &bytes[..len], k);
+    }
+    unsafe {
+        MODEL_LEN = 0;
+        MODEL_CAP = 0;
+        MODEL_BUDGET = 3 * len + 4;
+        MODEL_WRITTEN = 0;
     }
     let mut decoder = encoding_rs::UTF_16LE.new_decoder_without_bom_handling();
     let mut output = String::new();
@@ -274,19 +308,23 @@ fn decode_loop_contract<const N: usize>() {
 }
 
 #[kani::proof]
-#[kani::unwind(10)]
+#[kani::unwind(27)]
 #[kani::stub(alloc::fmt::format, fmt_stub)]
 #[kani::stub(encoding_rs::Decoder::decode_to_string_without_replacement, decode_contract_stub)]
-pub fn c18_decode_loop_terminates_3() {
-    decode_loop_contract::<3>();
+#[kani::stub(std::string::String::reserve, model_reserve)]
+#[kani::stub(std::string::String::push, model_push)]
+pub fn c18_decode_loop_terminates_2() {
+    decode_loop_contract::<2>();
 }
 
 #[kani::proof]
-#[kani::unwind(14)]
+#[kani::unwind(43)]
 #[kani::stub(alloc::fmt::format, fmt_stub)]
 #[kani::stub(encoding_rs::Decoder::decode_to_string_without_replacement, decode_contract_stub)]
-pub fn c18_decode_loop_terminates_5() {
-    decode_loop_contract::<5>();
+#[kani::stub(std::string::String::reserve, model_reserve)]
+#[kani::stub(std::string::String::push, model_push)]
+pub fn c18_decode_loop_terminates_4() {
+    decode_loop_contract::<4>();
 }
 
 /// Native confirmation for a non-termination verdict (run by bin/check with `cargo kani playback`):
